@@ -34,13 +34,15 @@ static bool c_operand(CB &o, int kind, const std::string &tag, RCP<const Basic> 
     CWRAPPER_OUTPUT_TYPE rc = SYMENGINE_NO_EXCEPTION;
     switch (kind) {
         case 0: {
-            long v = slot(tag + "_i", enumerate ? -2 : -4, enumerate ? 2 : 4, enumerate);
+            long R = verif_param("R", 4);
+            long v = slot(tag + "_i", enumerate ? -2 : -R, enumerate ? 2 : R, enumerate);
             CCALL(rc = integer_set_si(o.b, v));
             cpp = integer(v);
             break;
         }
         case 1: {
-            long i = slot(tag + "_n", enumerate ? -1 : -4, enumerate ? 2 : 4, enumerate), j = slot(tag + "_d", enumerate ? 0 : -2, enumerate ? 2 : 3, enumerate);
+            long R = verif_param("R", 4);
+            long i = slot(tag + "_n", enumerate ? -1 : -R, enumerate ? 2 : R, enumerate), j = slot(tag + "_d", enumerate ? 0 : -2, enumerate ? 2 : 3, enumerate);
             CCALL(rc = rational_set_si(o.b, i, j));
             cpp = Rational::from_two_ints(i, j);
             break;
@@ -87,8 +89,11 @@ extern "C" void harness_c42_binary()
     CB a, b, r;
     RCP<const Basic> ca, cb;
     unsigned op = (unsigned)verif_choice("op", 8);
-    bool en = op == 5 || op == 6; // atan2 / beta: table lookups keyed by the argument's hash
-    if (!c_operand(a, (int)verif_choice("ka", 4), "a", ca, en) || !c_operand(b, (int)verif_choice("kb", 4), "b", cb, en)) {
+    int ka = (int)verif_choice("ka", 4), kb = (int)verif_choice("kb", 4);
+    // atan2 / beta: table lookups keyed by the argument's hash; a floating operand: symbolic int -> double conversions inside pow
+    // and inside hashes.  There the exact operands are enumerated (one path per value) instead of symbolic.
+    bool en = op == 5 || op == 6 || ka == 3 || kb == 3;
+    if (!c_operand(a, ka, "a", ca, en) || !c_operand(b, kb, "b", cb, en)) {
         VERIF_END();
         return;
     }
@@ -131,11 +136,12 @@ extern "C" void harness_c42_unary()
              {basic_expand, [](const RCP<const Basic> &x) { return expand(x); }}, {basic_sqrt, sqrt}, {basic_cbrt, cbrt}};
     CB a, r;
     RCP<const Basic> ca;
-    if (!c_operand(a, (int)verif_choice("ka", 4), "a", ca)) {
+    unsigned k = (unsigned)verif_choice("fn", sizeof T / sizeof T[0]);
+    bool heavy = k >= 15 && k <= 19; // gamma, loggamma, zeta, dirichlet_eta, lambertw: factorial / Bernoulli loops over the argument
+    if (!c_operand(a, (int)verif_choice("ka", 4), "a", ca, heavy)) {
         VERIF_END();
         return;
     }
-    unsigned k = (unsigned)verif_choice("fn", sizeof T / sizeof T[0]);
     CWRAPPER_OUTPUT_TYPE rc = SYMENGINE_NO_EXCEPTION;
     CCALL(rc = T[k].c(r.b, a.b));
     agree(rc, r, [&] { return T[k].p(ca); }, "unary C function agrees with the C++ function (or both fail)");
